@@ -218,3 +218,83 @@ def e2e_sched_random(r, n):
         out.append(e2e_line(r.choice(["b1", "b2"]), ln, r.randrange(250), r.randrange(2), cli, srv, app,
                             r.randrange(2), r.randrange(2), r.choice([0, 0, 0, 128, 300, 1500]), sched))
     return out
+
+
+# ------------------------------------------------------------------ scripted peer
+def peer_cases(r, n, hostile=0.35):
+    """Block1 requests into the real server / Block2 responses into the real client, in any order,
+    with duplicates, gaps, interleaved Request-Tags / ETags and (hostile share) wrong sizes, wrong
+    More bits, changing block sizes, wrong or absent Size options, numbers beyond the body.
+    -> (driver line, model line)"""
+    out = []
+    for _ in range(n):
+        d = r.choice(["b1", "b2"])
+        s = r.choice([0, 0, 1, 1, 2, 3])
+        c = chunk(s)
+        k = r.randrange(1, 8)
+        ln = max(1, k * c + r.choice([-1, 0, 1, r.randrange(-c + 1, c)]))
+        nb = (ln + c - 1) // c
+        cfg = r.choice([7, 7, 7, 1, 2]) if d == "b1" else 7
+        tags = ["-"] if r.random() < 0.3 else [str(r.randrange(1, 4))]
+        if r.random() < 0.4:
+            tags.append(str(r.randrange(4, 7)))
+        sizeopt = r.choice(["-", str(ln), str(ln)])
+        items = []
+        order = list(range(nb))
+        if r.random() < 0.6:
+            r.shuffle(order)
+        seq = []
+        for t in tags:
+            seq += [(t, b) for b in order]
+        if len(tags) > 1 and r.random() < 0.7:
+            r.shuffle(seq)
+        # duplicates and gaps
+        seq2 = []
+        for it in seq:
+            x = r.random()
+            if x < 0.08:
+                continue
+            seq2.append(it)
+            if x > 0.85:
+                seq2.append(it)
+        if r.random() < 0.3 and seq2:
+            seq2 += [r.choice(seq2) for _ in range(r.randrange(1, 4))]
+        for (t, b) in seq2[:40]:
+            off = b * c
+            l = min(c, ln - off)
+            m = 1 if off + c < ln else 0
+            sz, ss, num = sizeopt, s, b
+            if r.random() < hostile:
+                h = r.randrange(8)
+                if h == 0:
+                    l = max(0, l + r.choice([-1, 1, -c // 2, 5]))
+                elif h == 1:
+                    m = 1 - m
+                elif h == 2:
+                    sz = r.choice(["-", str(ln - 1), str(ln + 7), "0", str(off + l)])
+                elif h == 3 and s > 0:
+                    ss = s - 1
+                    num = b * 2 + r.randrange(2)
+                    off = num * chunk(ss)
+                    l = min(chunk(ss), max(0, ln - off))
+                    m = 1 if off + chunk(ss) < ln else 0
+                elif h == 4 and b == 0 and s < 6:
+                    ss = s + 1
+                    l = min(chunk(ss), ln)
+                    m = 1 if chunk(ss) < ln else 0
+                elif h == 5:
+                    num = nb + r.randrange(3)
+                    off = min(ln, num * c)
+                    l = min(c, ln - off)
+                elif h == 6:
+                    off = max(0, off + r.choice([-3, 3, c]))
+                else:
+                    l = 0
+            items.append("%d/%d/%d/%s/%d/%d/%s" % (num, m, ss, sz, off, l, t))
+        if not items:
+            continue
+        seed = r.randrange(250)
+        drv = "peer %s %d %d %d 1 %s" % (d, ln, seed, cfg, " ".join(items))
+        mdl = "blkpeer %s %d %d %d %s" % (d, ln, seed, 0 if cfg == 7 else cfg, " ".join(items))
+        out.append((drv, mdl))
+    return out
